@@ -55,11 +55,16 @@ func rangeLoopOver(p *fg.Parsed, n ast.Node, expr string) *ast.RangeStmt {
 	return out
 }
 
-// walkCallback finds the function literal handed to walkIPRanges below n.
+// walkFns are the functions that walk the addresses of a requested range list in request order (ascending inside each
+// range): walkIPRanges, and walkConfiguredIPRanges which skips the addresses outside the configured pools (they are
+// in neither cache, so every callback below answers "continue" for them).
+var walkFns = map[string]bool{"walkIPRanges": true, "ci.walkConfiguredIPRanges": true}
+
+// walkCallback finds the function literal handed to a walk function below n.
 func walkCallback(p *fg.Parsed, n ast.Node) *ast.FuncLit {
 	var out *ast.FuncLit
 	ast.Inspect(n, func(x ast.Node) bool {
-		if c, ok := x.(*ast.CallExpr); ok && out == nil && p.Src(c.Fun) == "walkIPRanges" && len(c.Args) == 2 {
+		if c, ok := x.(*ast.CallExpr); ok && out == nil && walkFns[p.Src(c.Fun)] && len(c.Args) == 2 {
 			if fl, ok := c.Args[1].(*ast.FuncLit); ok {
 				out = fl
 			}
@@ -86,6 +91,21 @@ func gen(repo string) (map[string]string, error) {
 	if err != nil {
 		return nil, err
 	}
+
+	// ---- the walk over a requested range list
+	walkOK := false
+	if wf, err := ip.Fn("", "walkIPRanges"); err == nil {
+		t := norm(ip.Src(wf.Body))
+		walkOK = strings.Contains(t, "for _, r := range ranges {") && strings.Contains(t, "first <= last; first++") &&
+			strings.Contains(t, "if f(ip) { return }")
+	}
+	if wc, err := ip.Fn("crdIpam", "walkConfiguredIPRanges"); err == nil {
+		t := norm(ip.Src(wc.Body))
+		walkOK = walkOK && strings.Contains(t, "for _, r := range ranges {") && strings.Contains(t, "sort.Slice(parts, func(i, j int) bool { return nets.IPToInt(parts[i].First) < nets.IPToInt(parts[j].First) })") &&
+			strings.Contains(t, "walkIPRanges(parts, func(ip net.IP) bool { stopped = f(ip) return stopped })") &&
+			strings.Contains(t, "if stopped { return }")
+	}
+	fmt.Fprintf(&b, "/-- the walk over a requested range list visits its ranges in list order, the addresses of a range in ascending order,\n    and stops when the callback answers true (addresses outside the configured pools may be skipped: they are in no cache) -/\ndef walkInRequestOrder : Bool := %s\n\n", fg.LeanBool(walkOK))
 
 	// ---- NodeSubnetsByIPRanges
 	ns, err := ip.Fn("crdIpam", "NodeSubnetsByIPRanges")
@@ -242,7 +262,7 @@ func gen(repo string) (map[string]string, error) {
 	}
 	acb := walkCallback(ip, aloop.Body)
 	if acb == nil || len(acb.Body.List) < 2 {
-		return nil, fmt.Errorf("%s: AllocateInSubnetsAndIPRange: the walkIPRanges callback was not found", ipamFile)
+		return nil, fmt.Errorf("%s: AllocateInSubnetsAndIPRange: the callback of the walk over the range list was not found", ipamFile)
 	}
 	var rej *ast.IfStmt
 	for _, s := range acb.Body.List {
